@@ -49,6 +49,7 @@ Proof.
   intros cf s i f r s' H. unfold open_inode in H.
   destruct (assoc i (p_inodes s)); [|inversion H; subst; split; [reflexivity | intros; discriminate]].
   destruct (negb (is_safe_inode (id_mode i0))); [inversion H; subst; split; [reflexivity | intros; discriminate]|].
+  destruct (c_ifh cf && negb (euid (p_creds s) =? 0)); [inversion H; subst; split; [reflexivity | intros; discriminate]|].
   match type of H with context [sys_reopen ?c ?h ?x ?fl] => destruct (sys_reopen c h x fl) as [[u|e] h'] end;
     inversion H; subst; (split; [reflexivity|]); intros hi fl Hx; [inversion Hx; reflexivity | discriminate].
 Qed.
